@@ -198,6 +198,23 @@ pub fn many_unique(_seed: u64) -> Vec<LargeInput> {
     out
 }
 
+/// inputs whose changed middle has more than 2^20 cells for a quadratic table: only ever run
+/// with LCS by the checks that ask for them (one LCS diff of this size takes about a second)
+pub fn lcs_big() -> Vec<LargeInput> {
+    vec![
+        LargeInput {
+            name: "lcsbig-1030x1030-unrelated-with-common-ends".into(),
+            old: std::iter::once(1).chain((0..1030u32).map(|i| 10_000 + i)).chain(std::iter::once(2)).collect(),
+            new: std::iter::once(1).chain((0..1030u32).map(|i| 20_000 + i)).chain(std::iter::once(2)).collect(),
+        },
+        LargeInput {
+            name: "lcsbig-700x1600-one-common".into(),
+            old: (0..700u32).map(|i| if i == 350 { 7 } else { 10_000 + i }).collect(),
+            new: (0..1600u32).map(|i| if i == 900 { 7 } else { 20_000 + i }).collect(),
+        },
+    ]
+}
+
 pub fn all(tier: Tier, seed: u64) -> Vec<LargeInput> {
     let mut v = vec![];
     for n in sizes(tier) {
@@ -209,6 +226,9 @@ pub fn all(tier: Tier, seed: u64) -> Vec<LargeInput> {
 }
 
 pub fn find(name: &str, seed: u64) -> Option<LargeInput> {
+    if name.starts_with("lcsbig-") {
+        return lcs_big().into_iter().find(|f| f.name == name);
+    }
     if name.starts_with("unique-") {
         return many_unique(seed).into_iter().find(|f| f.name == name);
     }
